@@ -120,6 +120,12 @@ pub fn check_c05_perm(case: &Case, agg: &mut Agg) -> Result<(), String> {
     if e.m.halted {
         return Ok(());
     }
+    // swept (unbacked) fees were paid out by the admin: the contract may hold less than it owes (section 1.1), so
+    // an entitled withdrawal can fail for lack of funds whatever the order
+    if e.solvency_void || e.m.fees_unbacked {
+        *agg.counters.entry("skipped_after_admin_sweep".into()).or_insert(0) += 1;
+        return Ok(());
+    }
     let mut compared = 0;
     let batches: Vec<_> = e.m.batches.values().filter(|b| b.status == BStatus::Received && b.reqs.len() >= 2).cloned().collect();
     for b in batches {
